@@ -27,8 +27,41 @@ MODULES = {  # key -> path
     "util": "sigpy/util.py", "fourier": "sigpy/fourier.py", "interp": "sigpy/interp.py",
     "conv": "sigpy/conv.py", "block": "sigpy/block.py", "wavelet": "sigpy/wavelet.py",
     "thresh": "sigpy/thresh.py", "mri.util": "sigpy/mri/util.py", "linop": "sigpy/linop.py",
-    "prox": "sigpy/prox.py",
+    "prox": "sigpy/prox.py", "app": "sigpy/app.py", "mri.app": "sigpy/mri/app.py",
 }
+APP_MODULES = ("app", "mri.app")
+# app methods in scope (class -> methods).  Closures defined inside them (gradf, minL_x, minL_v, g, forward,
+# normalize, min_mps_ker, min_img_ker) get their own program `<method>.<closure>`.
+APP_METHODS = {
+    "app.LinearLeastSquares": ["_get_ConjugateGradient", "_get_GradientMethod", "_get_PrimalDualHybridGradient",
+                               "_get_ADMM", "objective"],
+    "mri.app.SenseRecon": ["__init__"], "mri.app.L1WaveletRecon": ["__init__"],
+    "mri.app.TotalVariationRecon": ["__init__"],
+    "mri.app.JsenseRecon": ["_get_data", "_get_vars", "_get_alg", "_output"],
+    "mri.app.EspiritCalib": ["__init__", "_output"],
+}
+# what an app method / closure may write besides freshly allocated arrays: the object itself (attribute
+# (re)binding) and the listed attributes = the solution array (documented in/out `x`) and work arrays the
+# object allocated itself.  Everything else reachable from `self` or the parameters (y, z, mps, weights,
+# coord, the arrays captured by A / G / proxg / P) must stay untouched.
+APP_ALLOWED = {
+    "app.LinearLeastSquares": ["x"],
+    # "**kwargs": the keyword dictionary forwarded to LinearLeastSquares.__init__ carries the in/out initial guess `x`
+    "mri.app.SenseRecon": ["**kwargs"], "mri.app.L1WaveletRecon": ["**kwargs"], "mri.app.TotalVariationRecon": ["**kwargs"],
+    "mri.app.JsenseRecon": ["mps_ker", "img_ker", "comm"],   # comm: the MPI communicator object (no array)
+    "mri.app.EspiritCalib": ["mps"],
+}
+# iterative-algorithm / app constructors: the object keeps references to its arguments and (in its updates, run
+# later by `.run()`) writes only the listed in/out arguments (position, keyword).  TRUSTED contract of sigpy/alg.py
+# (the update rules themselves are modelled and checked by C13 / C14; the runtime stream snapshots y, z and
+# every captured array around construction and run()).
+ALG_WRITES = {
+    "ConjugateGradient": [(2, "x")], "GradientMethod": [(1, "x")], "PrimalDualHybridGradient": [(4, "x"), (5, "u")],
+    "ADMM": [(2, "x"), (3, "v"), (4, "u")], "PowerMethod": [(1, "x")], "MaxEig": [], "AltMin": [], "App": [],
+    "LinearLeastSquares": [(2, "x")], "super().__init__": [(2, "x")],
+}
+IN_PLACE_DUNDERS = {"__iadd__", "__isub__", "__imul__", "__itruediv__", "__imatmul__", "__ifloordiv__", "__ipow__"}
+BACKEND_NAMES = {"to_device", "copyto", "get_device", "get_array_module", "Device", "cpu_device"}
 # functions whose documented purpose is to write into an argument (no `_ok` theorem; callers see the summary)
 INPLACE_BY_CONTRACT = {
     "util.axpy": "documented output argument y",
@@ -39,6 +72,17 @@ INPLACE_BY_CONTRACT = {
 NEEDS_RUNTIME = {
     "util.monte_carlo_sure": "calls the user callback f on y (an arbitrary callable may write its argument)",
     "linop.AllReduce._apply": "MPI all-reduce writes its buffer in place; in_place=True is a documented in-place API",
+}
+# app code that has no IR program (documentation only: nothing is claimed for it; the runtime stream check_lls covers
+# LinearLeastSquares end to end)
+APP_NEEDS_RUNTIME = {
+    "app.LinearLeastSquares.__init__": "stores its arguments, allocates x when none is given and dispatches through _get_alg to "
+                                       "the four set-ups (each has its own obligation); no array arithmetic of its own",
+    "app.App.run / alg.*.update": "the iterations: which arrays an algorithm writes is the trusted table ALG_WRITES (in/out x, u, v); "
+                                  "the update rules are the models of C12-C14",
+    "mri.app.JsenseRecon.__init__": "calls _get_data, _get_vars, _get_alg (each has its own obligation) on the attributes it just stored",
+    "mri.app.*Recon(**kwargs)": "z, P, x passed inside **kwargs are one origin (the dictionary): only 'nothing outside it is written' is proved",
+    "app.L2ConstrainedMinimization / app.MaxEig": "set-ups outside the property's list of apps (no y/z/mps/weights of their own beyond A, y)",
 }
 SKIP = {"linop.Linop._apply", "linop.Gradient", "linop.FiniteDifference",  # abstract / factories (no array code)
         "linop._check_shape_positive", "linop._check_compose_linops", "linop._combine_compose_linops",
@@ -131,6 +175,13 @@ class Gen:
             for node in tree.body:
                 if isinstance(node, ast.FunctionDef):
                     self.funcs["%s.%s" % (mk, node.name)] = (mk, node, None)
+                elif isinstance(node, ast.ClassDef) and mk in APP_MODULES:
+                    for m in node.body:
+                        if isinstance(m, ast.FunctionDef) and m.name in APP_METHODS.get("%s.%s" % (mk, node.name), []):
+                            self.funcs["%s.%s.%s" % (mk, node.name, m.name)] = (mk, m, node.name)
+                            for inner in ast.walk(m):
+                                if isinstance(inner, ast.FunctionDef) and inner is not m:
+                                    self.funcs["%s.%s.%s.%s" % (mk, node.name, m.name, inner.name)] = (mk, m, node.name, inner)
                 elif isinstance(node, ast.ClassDef) and mk in ("linop", "prox"):
                     for m in node.body:
                         if isinstance(m, ast.FunctionDef) and m.name in ("_apply", "_prox", "apply", "__call__"):
@@ -138,9 +189,17 @@ class Gen:
                                 continue
                             self.funcs["%s.%s.%s" % (mk, node.name, m.name)] = (mk, m, node.name)
 
+    def linops_have_no_inplace_ops(self):
+        for mk in ("linop",):
+            for node in ast.walk(self.trees[mk]):
+                if isinstance(node, ast.FunctionDef) and node.name in IN_PLACE_DUNDERS:
+                    return False
+        return True
+
     def in_scope(self):
         keys = []
-        for k, (mk, node, cls) in self.funcs.items():
+        for k, ent in self.funcs.items():
+            mk, node, cls = ent[:3]
             if k in SKIP:
                 continue
             if cls is None and mk in ("linop", "prox"):
@@ -163,8 +222,9 @@ class Gen:
         if key in self.active:
             raise Unsupported("recursive call cycle through %s" % key)
         self.active.append(key)
-        mk, node, cls = self.funcs[key]
-        tr = FnTr(self, mk, key, node, cls)
+        mk, node, cls = self.funcs[key][:3]
+        closure = self.funcs[key][3] if len(self.funcs[key]) > 3 else None
+        tr = FnTr(self, mk, key, node, cls, closure)
         info = tr.run()
         self.active.pop()
         info["summary"] = py_summary(info, {k: v["summary"] for k, v in self.done.items()})
@@ -174,8 +234,11 @@ class Gen:
 
 
 class FnTr:
-    def __init__(self, gen, mk, key, fn, cls):
+    def __init__(self, gen, mk, key, fn, cls, closure=None):
         self.g, self.mk, self.key, self.fn, self.cls = gen, mk, key, fn, cls
+        self.app = mk in APP_MODULES
+        self.closure = closure
+        self.operators = set()    # variables known to hold Linop / Prox / Alg objects (never ndarrays)
         self.names = []          # var index -> display name
         self.scopes = [{}]       # name -> var index
         self.capt = {}           # attr -> var index
@@ -183,26 +246,45 @@ class FnTr:
         self.containers = set()   # variables known to hold Python containers of arrays (lists/tuples), not ndarrays
         self.returns_container = False
         a = fn.args
-        if a.kwarg or a.kwonlyargs or a.posonlyargs:
+        if (a.kwarg and not self.app) or a.kwonlyargs or a.posonlyargs:
             raise Unsupported("%s: **kwargs / keyword-only signature" % key)
         params = [x.arg for x in a.args]
         self.vararg = a.vararg is not None
         if self.vararg:
             params.append(a.vararg.arg)
+        if a.kwarg:
+            params.append(a.kwarg.arg)     # app constructors: the keyword dictionary is one more (container) parameter
         self.is_method = cls is not None
         if self.is_method:
             assert params[0] == "self"
             params = params[1:]
+        outer_params = []
+        if closure is not None:
+            # program of a closure: ITS parameters are the parameters; the enclosing method's parameters are
+            # entry arrays of the caller too, so they become additional captured slots
+            ca = closure.args
+            if ca.kwarg or ca.kwonlyargs or ca.posonlyargs or ca.vararg:
+                raise Unsupported("%s: closure signature" % key)
+            outer_params, params = params, [x.arg for x in ca.args]
         self.params = params
+        self.inner_scope = {}
         for p in params:
-            self.scopes[0][p] = self.new(p)
-        if self.vararg:
+            v = self.new(p)
+            (self.inner_scope if closure is not None else self.scopes[0])[p] = v
+        if self.vararg and closure is None:
             self.containers.add(self.scopes[0][params[-1]])
+        if a.kwarg and closure is None:
+            self.containers.add(self.scopes[0][a.kwarg.arg])
         self.np = len(params)
         self.capt_order = []
         if self.is_method:
             self.capt["self"] = None  # placeholder, allocated in prescan
             self.prescan()
+        for p in outer_params:
+            v = self.new("outer:" + p)
+            self.scopes[0][p] = v
+            self.capt["outer:" + p] = v
+            self.capt_order.append("outer:" + p)
 
     def prescan(self):
         """captured slots: `self` (the object itself: attribute writes, unknown methods) + every self.<attr>"""
@@ -281,11 +363,17 @@ class FnTr:
                     return v
                 if chain[-1] in SCALAR_ATTRS:
                     return None
-                return self.alias_of([v], out)
+                t = self.alias_of([v], out)
+                if chain[-1] in ("H", "N"):
+                    self.operators.add(t)
+                return t
             base = self.ev(e.value, out)
             if base is None or e.attr in SCALAR_ATTRS:
                 return None
-            return self.alias_of([base], out)
+            t = self.alias_of([base], out)
+            if e.attr in ("H", "N") and self.app:
+                self.operators.add(t)
+            return t
         if isinstance(e, ast.Subscript):
             base = self.ev(e.value, out)
             self.ev(e.slice, out)
@@ -308,6 +396,15 @@ class FnTr:
                 return None
             if isinstance(e, ast.BoolOp):  # `a or b` returns one of the operands
                 return self.alias_of(vs, out)
+            if self.app and any(v in self.operators for v in vs if v is not None):
+                # operator algebra (`A.H * S * A`, `lamda * I`, `-I`: a new operator referencing its operands) or an
+                # application (`A.H * y`: child-operator contract): no writes, the result may reference every operand
+                nz = [v for v in vs if v is not None]
+                t = self.tmp("o")
+                out.append(("call", t, [], nz))
+                if all(v in self.operators for v in nz):
+                    self.operators.add(t)
+                return t
             if isinstance(e, ast.BinOp) and any(v in self.containers for v in vs if v is not None):
                 t = self.alias_of(vs, out, "l")    # list/tuple concatenation or repetition keeps the element references
                 self.containers.add(t)
@@ -377,7 +474,14 @@ class FnTr:
             c = c[1:]
         if len(c) == 1:
             k = "%s.%s" % (self.mk, c[0])
-            return k if k in self.g.funcs and self.g.funcs[k][2] is None else None
+            if k in self.g.funcs and self.g.funcs[k][2] is None:
+                return k
+            if self.app and chain[0] in ("sp", "sigpy"):
+                for mk in ("util", "fourier", "interp", "conv", "block", "wavelet", "thresh"):
+                    k = "%s.%s" % (mk, c[0])
+                    if k in self.g.funcs and self.g.funcs[k][2] is None:
+                        return k
+            return None
         if len(c) == 2:
             for mk in (c[0], "mri." + c[0]):
                 k = "%s.%s" % (mk, c[1])
@@ -446,6 +550,14 @@ class FnTr:
                 return None
             return self.unknown_call(pos + list(kws.values()), out, "subscripted callee")
         chain = attr_chain(f)
+        if self.app:
+            r = self.app_call(e, f, chain, out)
+            if r is not NotImplemented:
+                return r
+            if chain and "xp" in chain[:-1]:
+                chain = ["xp", chain[-1]]                  # self.x_device.xp.zeros(..), device.xp.linalg.norm(..)
+            elif chain and chain[0] in ("sp", "sigpy") and len(chain) == 2 and chain[1] in BACKEND_NAMES:
+                chain = ["backend", chain[1]]
         # --- method / module calls
         if isinstance(f, ast.Attribute):
             meth = f.attr
@@ -544,7 +656,7 @@ class FnTr:
             pos, kws = self.args_of(e, out)
             allv = pos + list(kws.values())
             if v is not None:
-                if v in self.captured_derived:
+                if v in self.captured_derived or v in self.operators:
                     return self.alias_or_fresh([v] + allv, out)      # child operator contract
                 return self.unknown_call(allv, out, "callable variable " + name)  # callback parameter
             key = self.resolve([name])
@@ -563,6 +675,49 @@ class FnTr:
         pos, kws = self.args_of(e, out)
         return self.unknown_call(pos + list(kws.values()), out, "computed callee")
 
+    def app_call(self, e, f, chain, out):
+        """constructor calls and `.run()` in the app modules; NotImplemented = not one of those"""
+        name = None
+        if isinstance(f, ast.Attribute) and f.attr == "__init__" and isinstance(f.value, ast.Call) and \
+                isinstance(f.value.func, ast.Name) and f.value.func.id == "super" and self.cls is not None:
+            name = "super().__init__"
+        elif isinstance(f, ast.Name) and f.id[:1].isupper() and f.id not in NONE_BUILTINS and self.lookup(f.id) is None:
+            name = f.id
+        elif chain and chain[-1][:1].isupper() and chain[0] in MODULE_NAMES | {"alg", "app"} and len(chain) >= 2:
+            name = chain[-1]
+        if name is not None:
+            pos, star, kws = [], [], {}
+            for a in e.args:
+                if isinstance(a, ast.Starred):
+                    star.append(self.ev(a.value, out))
+                else:
+                    pos.append(self.ev(a, out))
+            for k in e.keywords:
+                (star.append if k.arg is None else (lambda v, kk=k.arg: kws.__setitem__(kk, v)))(self.ev(k.value, out))
+            if name in ("Device",):
+                return None
+            for i, kw in ALG_WRITES.get(name, []):
+                if i < len(pos):
+                    v = pos[i]
+                elif kw in kws:
+                    v = kws[kw]
+                else:
+                    for sv in star:      # the in/out argument may travel in *args / **kwargs
+                        if sv is not None:
+                            out.append(("mut", sv))
+                    continue
+                if v is not None:
+                    out.append(("mut", v))
+            allv = [v for v in pos + star + list(kws.values()) if v is not None]
+            t = self.tmp("obj")
+            out.append(("call", t, [], allv))
+            self.operators.add(t)
+            return t
+        if isinstance(f, ast.Attribute) and f.attr == "run" and not e.args and not e.keywords:
+            base = self.ev(f.value, out)
+            return None if base is None else self.alias_or_fresh([base], out)
+        return NotImplemented
+
     # ---- statements ----------------------------------------------------------------------------
     def assign_target(self, t, v, out, fresh_scope=False):
         if isinstance(t, ast.Name):
@@ -572,6 +727,10 @@ class FnTr:
             else:
                 d = self.bind(t.id)
             out.append(("alias", d, [v] if v is not None else []))
+            if v is not None and v in self.operators:
+                self.operators.add(d)
+            else:
+                self.operators.discard(d)
             if v is not None and v in self.containers:
                 self.containers.add(d)
             if v is not None and v in self.captured_derived:
@@ -598,6 +757,12 @@ class FnTr:
             chain = attr_chain(t)
             if chain and chain[0] == "self" and self.is_method:
                 out.append(("mut", self.capt["self"]))   # attribute write: the object changes
+                if self.app and len(chain) == 2:
+                    # (re)binding: later reads of self.<attr> may see the old or the new value (weak update)
+                    slot = self.capt[chain[1]]
+                    out.append(("alias", slot, [slot] + ([v] if v is not None else [])))
+                    if v is not None and v in self.operators:
+                        self.operators.add(slot)
                 return
             base = self.ev(t.value, out)
             if base is not None:
@@ -672,7 +837,14 @@ class FnTr:
         elif isinstance(s, ast.AugAssign):
             r = self.ev(s.value, out)
             t = s.target
-            if isinstance(t, ast.Name):
+            if isinstance(t, ast.Name) and self.app and self.lookup(t.id) in self.operators:
+                # `AHA += lamda * I` on a Linop: no class of linop.py defines an in-place operator (checked on
+                # every run), so this is `AHA = AHA + ...`: a NEW Add object that references both operands
+                if not self.g.linops_have_no_inplace_ops():
+                    raise Unsupported("%s: linop.py defines in-place operator methods; `%s op= ...` may mutate the operator" % (self.key, t.id))
+                d = self.bind(t.id)
+                out.append(("alias", d, [d] + ([r] if r is not None else [])))
+            elif isinstance(t, ast.Name):
                 d = self.bind(t.id)
                 # ndarray: in place.  Python scalar (`output = 0; output += A(x)`): rebinding to a new array.
                 out.append(("mut", d))
@@ -727,12 +899,36 @@ class FnTr:
         elif isinstance(s, (ast.Pass, ast.Import, ast.ImportFrom)):
             pass
         elif isinstance(s, ast.FunctionDef):
-            raise Unsupported("%s: nested function %s" % (self.key, s.name))
+            if not self.app:
+                raise Unsupported("%s: nested function %s" % (self.key, s.name))
+            d = self.bind(s.name)            # a callable, holds no array itself; its body is the program <key>.<name>
+            out.append(("alias", d, []))
+            self.operators.add(d)
         else:
             raise Unsupported("%s: statement %s (line %d)" % (self.key, type(s).__name__, s.lineno))
         return out
 
     def run(self):
+        if self.closure is not None:
+            import copy
+
+            class Strip(ast.NodeTransformer):
+                def visit_FunctionDef(self, node):
+                    return node          # nested bodies are separate programs
+                def visit_Return(self, node):
+                    return ast.copy_location(ast.Expr(value=node.value if node.value is not None else ast.Constant(value=None)), node)
+            outer = Strip()
+            pre_stmts = [outer.visit(copy.deepcopy(st)) for st in self.fn.body]
+            pre = self.block_with(pre_stmts)
+            self.scopes.append(self.inner_scope)
+            inner = self.block_with(copy.deepcopy(self.closure.body))
+            self.scopes.pop()
+            # the closure runs in the environment the enclosing method leaves behind (any of its bindings: a loop
+            # over the method body gives the flow-insensitive join), possibly many times
+            body = [("loop", pre), ("loop", inner)]
+            return dict(key=self.key, lean=self.g.lean_name(self.key), n=max(1, len(self.names)), np=self.np,
+                        nc=len(self.capt_order), params=self.params, captured=self.capt_order, names=self.names,
+                        body=body, line=self.closure.lineno, path=MODULES[self.mk], vararg=False, returns_container=False)
         body = self.block_with(self.fn.body)
         return dict(key=self.key, lean=self.g.lean_name(self.key), n=max(1, len(self.names)), np=self.np,
                     nc=len(self.capt_order), params=self.params, captured=self.capt_order, names=self.names,
@@ -916,6 +1112,33 @@ def gen_effects(ctx=None):
     return "\n".join(out)
 
 
+def app_class(key):
+    for c in APP_ALLOWED:
+        if key.startswith(c + "."):
+            return c
+    return None
+
+
+def allowed_slots(g, key):
+    """origins an app method / closure may write besides fresh arrays, as (lean term, "Ck"/"Pk", display name); None for a
+    plain function"""
+    c = app_class(key)
+    if c is None:
+        return None
+    info = g.done[key]
+    capt, params = info["captured"], info["params"]
+    out = [(".captured 0", "C0", "self")]
+    for a in APP_ALLOWED[c]:
+        if a == "**kwargs":
+            if "kwargs" in params:
+                out.append((".param %d" % params.index("kwargs"), "P%d" % params.index("kwargs"), "**kwargs"))
+            if "outer:kwargs" in capt:
+                out.append((".captured %d" % capt.index("outer:kwargs"), "C%d" % capt.index("outer:kwargs"), "**kwargs of the enclosing constructor"))
+        elif a in capt:
+            out.append((".captured %d" % capt.index(a), "C%d" % capt.index(a), "self." + a))
+    return out
+
+
 def ok_keys(g):
     return [k for k in g.order if k not in INPLACE_BY_CONTRACT and k not in NEEDS_RUNTIME]
 
@@ -927,7 +1150,12 @@ def gen_effects_ok(ctx=None):
     out = [HEADER, "import SigpyVerif.Gen.Effects\nnamespace SigpyVerif.Gen.Effects\nopen SigpyVerif.C02\n"]
     for key in ok_keys(g):
         nm = g.done[key]["lean"]
-        out.append("theorem %s_ok : noMutation %s = true := by decide\n" % (nm, nm))
+        al = allowed_slots(g, key)
+        if al is None:
+            out.append("theorem %s_ok : noMutation %s = true := by decide\n" % (nm, nm))
+        else:
+            out.append("/-- `%s` writes only fresh arrays, the object itself and: %s -/\ntheorem %s_ok : writesOnly %s [%s] = true := by decide +kernel\n" % (
+                key, ", ".join(a[2] for a in al[1:]) or "nothing else", nm, nm, ", ".join(a[0] for a in al)))
     out.append("/-! call sites use the literal `summ_<f>`; these theorems tie it to the callee's own analysis -/\n")
     for key in g.order:
         if g.funcs[key][2] is None:
